@@ -228,4 +228,34 @@ theorem fields_of_form (typ p loc rs : Bytes) :
   · simp [instVal_hole, formVals, htmlUnescape_escape]
 
 
+
+
+theorem qsInsert_fresh (k v : Bytes) (d : List (Bytes × List Bytes)) (h : k ∉ d.map (·.1)) :
+    qsInsert k v d = d ++ [(k, [v])] := by
+  induction d with
+  | nil => rfl
+  | cons x d ih =>
+    obtain ⟨k', vs⟩ := x
+    have hne : k' ≠ k := by intro e; subst e; simp at h
+    have hd : k ∉ d.map (·.1) := fun hm => h (by simp [hm])
+    simp [qsInsert, hne, ih hd]
+
+theorem foldl_qsInsert (ps : List (Bytes × Bytes)) (acc : List (Bytes × List Bytes))
+    (hnd : (ps.map (·.1)).Nodup) (hdis : ∀ k ∈ ps.map (·.1), k ∉ acc.map (·.1)) :
+    ps.foldl (fun d kv => qsInsert kv.1 kv.2 d) acc = acc ++ ps.map (fun kv => (kv.1, [kv.2])) := by
+  induction ps generalizing acc with
+  | nil => simp
+  | cons p ps ih =>
+    simp only [List.map_cons, List.nodup_cons] at hnd
+    obtain ⟨hp, hnd⟩ := hnd
+    simp only [List.foldl_cons]
+    rw [qsInsert_fresh p.1 p.2 acc (hdis p.1 (by simp))]
+    rw [ih _ hnd]
+    · simp
+    · intro k hk
+      simp only [List.map_append, List.map_cons, List.map_nil, List.mem_append, List.mem_singleton, not_or]
+      refine ⟨hdis k (by simp [hk]), ?_⟩
+      intro e; subst e; exact hp hk
+
+
 end C14
